@@ -137,16 +137,16 @@ def _shard(args):
     model = parsercorr.model_parse(docs, lambda lines: driver.run_lines(lines, jobs=1))
     mlabels = driver.run_lines(['label\t' + enc(d) for d in docs], jobs=1)
     out = {'n': 0, 'nontriv': set(), 'tags': {}, 'dis': [], 'exp': [], 'samples': [], 'harness': []}
-    signal.signal(signal.SIGALRM, _alarm)
+    signal.signal(signal.SIGPROF, _alarm)
     warnings.simplefilter('ignore')
     for (kind, text, expected, meta), m, ml in zip(cases, model, mlabels):
-        signal.setitimer(signal.ITIMER_REAL, 5.0)
+        signal.setitimer(signal.ITIMER_PROF, 5.0)
         try:
             real, parts = parsercorr.real_parse(text)
             rl = real_labels(text)
         except _Timeout:
             # a stalled worker is not a hang: try once more, alone, with a longer limit
-            signal.setitimer(signal.ITIMER_REAL, 20.0)
+            signal.setitimer(signal.ITIMER_PROF, 20.0)
             try:
                 real, parts = parsercorr.real_parse(text)
                 rl = real_labels(text)
@@ -156,9 +156,9 @@ def _shard(args):
                 out['tags']['shard aborted after a hang'] = 1
                 break
             finally:
-                signal.setitimer(signal.ITIMER_REAL, 0)
+                signal.setitimer(signal.ITIMER_PROF, 0)
         finally:
-            signal.setitimer(signal.ITIMER_REAL, 0)
+            signal.setitimer(signal.ITIMER_PROF, 0)
         out['n'] += 2
         mm = parsercorr.normalize_error(m)
         rr = parsercorr.normalize_error(real)
@@ -207,7 +207,7 @@ def _shard(args):
 def correspondence(ctx, corr):
     warnings.simplefilter('ignore', SyntaxWarning)
     # many small shards: bounded memory per worker
-    n_g, n_f, n_shards = (2000, 1250, 32) if ctx.quick else (2400, 1600, 400)
+    n_g, n_f, n_shards = (1500, 900, 32) if ctx.quick else (2400, 1600, 400)
     res = par.pmap(_shard, [(ctx.seed, s, n_g, n_f) for s in range(n_shards)])
     n_known_forwarded = [0]
     for r in res:
@@ -257,8 +257,8 @@ def correspondence(ctx, corr):
 def _fails(text, expected=None):
     """property oracle on the REAL code only"""
     from xdoctest import parser, exceptions
-    signal.signal(signal.SIGALRM, _alarm)
-    signal.setitimer(signal.ITIMER_REAL, 5.0)
+    signal.signal(signal.SIGPROF, _alarm)
+    signal.setitimer(signal.ITIMER_PROF, 5.0)
     try:
         with warnings.catch_warnings():
             warnings.simplefilter('ignore')
@@ -266,17 +266,17 @@ def _fails(text, expected=None):
     except _Timeout:
         return {'observed': 'hang (> 5 s)', 'expected_by_spec': 'parse returns', 'api': 'DoctestParser().parse(docstring)'}
     except exceptions.DoctestParseError:
-        signal.setitimer(signal.ITIMER_REAL, 0)
+        signal.setitimer(signal.ITIMER_PROF, 0)
         if expected is not None:
             return {'observed': 'rejected: DoctestParseError', 'expected_by_spec': 'a well-formed docstring parses',
                     'api': 'DoctestParser().parse(docstring)'}
         return None
     except Exception as ex:
-        signal.setitimer(signal.ITIMER_REAL, 0)
+        signal.setitimer(signal.ITIMER_PROF, 0)
         return {'observed': 'escaped ' + type(ex).__name__, 'expected_by_spec': 'parts or DoctestParseError',
                 'api': 'DoctestParser().parse(docstring)'}
     finally:
-        signal.setitimer(signal.ITIMER_REAL, 0)
+        signal.setitimer(signal.ITIMER_PROF, 0)
     _, L = O.prepared(text)
     prob = O.deindent_problem(text)
     kinds = []
